@@ -374,9 +374,10 @@ def run_check(pid, tier='quick', seed=1, repo='/repo', workers=None,
         'wall_s': round(wall, 2),
         'violations': len(reported),
     }
-    os.makedirs(EVIDENCE_DIR, exist_ok=True)
-    with open(os.path.join(EVIDENCE_DIR, '%s.json' % pid), 'w') as fp:
-        json.dump(evidence, fp, indent=1, sort_keys=True, default=repr)
+    if not os.environ.get('EVOSIM_NO_EVIDENCE'):
+        os.makedirs(EVIDENCE_DIR, exist_ok=True)
+        with open(os.path.join(EVIDENCE_DIR, '%s.json' % pid), 'w') as fp:
+            json.dump(evidence, fp, indent=1, sort_keys=True, default=repr)
     out.write('%s %s seed=%d: %d scenarios, %d runs, %d distinct shapes, '
               '%d violation(s), %d known, %d harness error(s), %.1fs%s\n'
               % (pid, tier, seed, evaluations, runs, len(shapes),
